@@ -128,6 +128,7 @@ type query struct {
 	inputs   []string
 	result   solveResult
 	disagree string
+	quick    bool // listed as a known finding: one short attempt (it is expected not to prove)
 }
 
 func safeFile(name string) string {
@@ -164,7 +165,13 @@ func solveAll(qs []*query, dir string, timeoutSec int, workers int, thorough boo
 					if qq.expect == "sat" && i > 0 {
 						break // covers: one quick attempt; only a proof of unsatisfiability matters
 					}
+					if qq.quick && i > 0 {
+						break
+					}
 					t := timeoutSec
+					if qq.quick && t > 10 {
+						t = 10
+					}
 					if qq.expect == "sat" {
 						t = 5
 						if thorough {
